@@ -144,7 +144,7 @@ def run(prop, tier, seed, t0, a):
             if a.verbose:
                 traceback.print_exc()
     obls = eng.obligations
-    timeout = 10 if tier == 'quick' else 60
+    timeout = 20 if tier == 'quick' else 90     # sized so that verdicts do not flip when all cores are busy
     solver_wall = smt.discharge(obls, timeout_s=timeout, both=(tier == 'thorough'))
     # non-SMT checks (exhaustive fact validation, Lean, structural checks)
     extra = []
@@ -175,6 +175,29 @@ def run(prop, tier, seed, t0, a):
             undecided.append(o)
     for x in extra:
         (discharged if x['ok'] else failed).append(x) if not x.get('undecided') else undecided.append(x)
+
+    # undecided obligations that came with a candidate model (E-matching stage): a candidate that replays on the real
+    # code is a violation; one that does not stays undecided (never the other way round)
+    still_und = []
+    for o in undecided:
+        cand = None if isinstance(o, dict) else getattr(o, 'candidate', None)
+        if cand:
+            o.model = cand
+            inputs = model_inputs(o)
+            hit = None
+            for pat, fn in reg.replays:
+                if re.search(pat, o.name):
+                    r = run_replay(fn, inputs, o.name, timeout_s=getattr(fn, 'timeout_s', 20))
+                    if r.get('confirmed') or (r.get('timeout') and getattr(fn, 'timeout_confirms', False)):
+                        hit = r
+                    break
+            if hit:
+                o.result = 'unknown(candidate model replayed on the real code)'
+                failed.append(o)
+                continue
+            o.model = None
+        still_und.append(o)
+    undecided = still_und
 
     # known findings: re-discharge under "not region"
     known_lines = []
@@ -281,6 +304,13 @@ def run(prop, tier, seed, t0, a):
             status = 'violation'
             report_violation(prop, o, reg, mod)
     write_evidence(prop, tier, seed, t0, cov, assumptions, status=status, violations=viol)
+    if a.verbose:
+        for o in undecided:
+            if not isinstance(o, dict):
+                print(f"  undecided {o.name}\n     trail={o.meta.get('trail')}\n     goal={str(o.goal)[:600]}")
+        for o in sorted(obls, key=lambda o: -o.time)[:12]:
+            if o.time > 2:
+                print(f"  slow {o.time:6.1f}s {o.result:8} {o.name}")
     if a.verbose or rc != 0:
         print(f"[{prop}] obligations={n_obl} discharged={len(discharged)} modulo-known={len(modulo)} failed={len(failed)} "
               f"undecided={len(undecided)} refused={len(refused)} functions={len(under)} solver={cov['solver_time_s']}s")
